@@ -844,7 +844,8 @@ func c08JudgeJobs(c *Ctx, jobs []*c08Job, runs int) {
 
 // c08CallTreeTwins verifies the CAUSE of the known finding C08/cli/call_tree/identical-info-nodes on the
 // real code: the profile is aggregated as the CLI does for that format, graph.New builds
-// the call tree, and Nodes.Sort (the order the format uses) is run on shuffles of its node list.
+// the call tree, and every pair of its nodes (for -dot also of its edges) is tested for being left
+// unordered by Nodes.Sort in the order the format uses (EdgeMap.Sort).
 //
 //	"twins-unstable"   the sorted order of the nodes (for -dot also of the graph's edge list) varies, and
 //	                   wherever two runs disagree the nodes at that rank have one and the same NodeInfo
@@ -868,58 +869,69 @@ func c08CallTreeTwins(canon string, order graph.NodeOrder, aggregateFunctions, a
 			}
 		}
 		g := graph.New(p, &graph.Options{CallTree: true, SampleValue: func(v []int64) int64 { return v[idx] }})
-		r := NewRng(seed)
-		var first graph.Nodes
-		for k := 0; k < 12; k++ {
-			ns := make(graph.Nodes, len(g.Nodes))
-			for i, j := range perm(r, len(g.Nodes)) {
-				ns[i] = g.Nodes[j]
+		// Deterministic tie detection: sort.Sort leaves a two-element slice as it is iff the second
+		// element is not less than the first, so a pair is unordered iff both arrangements survive.
+		tie := func(a, b *graph.Node) bool {
+			x, y := graph.Nodes{a, b}, graph.Nodes{b, a}
+			if x.Sort(order) != nil || y.Sort(order) != nil {
+				return false
 			}
-			if err := ns.Sort(order); err != nil {
-				verdict = "sort-error"
-				return
-			}
-			if first == nil {
-				first = ns
-				continue
-			}
-			for i := range ns {
-				if ns[i] != first[i] {
-					if ns[i].Info != first[i].Info {
-						verdict = "unstable-other"
-						return
+			return x[0] == a && y[0] == b
+		}
+		twins, other := false, false
+		for i, a := range g.Nodes {
+			for _, b := range g.Nodes[i+1:] {
+				if tie(a, b) {
+					if a.Info == b.Info {
+						twins = true
+					} else {
+						other = true
 					}
-					verdict = "twins-unstable"
 				}
 			}
 		}
-		if !allEdges {
-			return
-		}
-		// -dot sorts ALL edges of the graph in one list (ComposeDot): edges between twin pairs have
-		// equal (Src.Info, Dest.Info) and tie as well
-		var firstE []*graph.Edge
-		for k := 0; k < 12; k++ {
-			em := graph.EdgeMap{}
+		if allEdges {
+			// -dot sorts ALL edges of the graph in one list (ComposeDot): edges between twin pairs have
+			// equal (Src.Info, Dest.Info) and tie as well.  EdgeMap.Sort takes its input order from map
+			// iteration, so a pair is tried until both results have been seen (40 tries: 2^-39 to miss).
+			var es []*graph.Edge
 			for _, n := range g.Nodes {
-				for _, e := range n.Out {
-					em[&graph.Node{}] = e
+				for _, e := range n.Out.Sort() {
+					es = append(es, e)
 				}
 			}
-			es := em.Sort()
-			if firstE == nil {
-				firstE = es
-				continue
-			}
-			for i := range es {
-				if es[i] != firstE[i] {
-					if es[i].Src.Info != firstE[i].Src.Info || es[i].Dest.Info != firstE[i].Dest.Info {
-						verdict = "unstable-other"
-						return
+			flips := func(a, b *graph.Edge) bool {
+				var first *graph.Edge
+				for k := 0; k < 40; k++ {
+					out := graph.EdgeMap{&graph.Node{}: a, &graph.Node{}: b}.Sort()
+					if first == nil {
+						first = out[0]
+					} else if out[0] != first {
+						return true
 					}
-					verdict = "twins-unstable"
+				}
+				return false
+			}
+			for i, a := range es {
+				for _, b := range es[i+1:] {
+					if c08abs(a.Weight) != c08abs(b.Weight) {
+						continue // the magnitude is the first key; only equal magnitudes can tie
+					}
+					if flips(a, b) {
+						if a.Src.Info == b.Src.Info && a.Dest.Info == b.Dest.Info {
+							twins = true
+						} else {
+							other = true
+						}
+					}
 				}
 			}
+		}
+		switch {
+		case other:
+			verdict = "unstable-other"
+		case twins:
+			verdict = "twins-unstable"
 		}
 	}); pn != "" {
 		return "panic"
@@ -1259,7 +1271,7 @@ func c08ReplayCLI(c *Ctx, cs c08Case) {
 }
 
 func runC08(c *Ctx) {
-	c.Res.Rule = "(i) 7 node orders + EdgeMap.Sort + SortTags(flat|cum) on 8 shuffles of tie-rich element sets (weights from {±5,±3,7,0,±1,MinInt64,±MaxInt64}; equal names at different addresses/objects/lines; stream 'spaces' = strings with embedded spaces, kept apart): one order over all shuffles, equal to the model's sortBy(lessOf regenerated descriptors), renderings equal; non-trivial = at least two elements agree on the primary key magnitude or the printable name. (ii) generated valid tie-rich profiles (strategies pm-pairs, same-names, equal-flat-cum, positive, many-edges) × every CLI format (-top -tree -peek -dot -callgrind -tags -traces -raw -proto -topproto + option variants), k fresh processes each, stdout and exit code byte-compared; non-trivial = pprof exits 0 with non-empty output; in-process serialization twice / reparse-reserialize."
+	c.Res.Rule = "(i) 7 node orders + EdgeMap.Sort + SortTags(flat|cum) on 8 shuffles of tie-rich element sets (weights from {±5,±3,7,0,±1,MinInt64,±MaxInt64}; equal names at different addresses/objects/lines; stream 'spaces' = strings with embedded spaces, kept apart): one order over all shuffles, equal to the model's sortBy(lessOf regenerated descriptors), renderings equal; non-trivial = at least two elements agree on the primary key magnitude or the printable name. (ii) generated valid tie-rich profiles (strategies pm-pairs, same-names, equal-flat-cum, positive, many-edges) × every CLI format (-top -tree -peek -dot -callgrind -tags -traces -raw -proto -topproto + option variants), k fresh processes each, stdout and exit code byte-compared; non-trivial = pprof exits 0 with non-empty output; in-process serialization twice / reparse-reserialize. (iii) local symbolization through the real symbolizer with a scripted ObjTool on unsymbolized profiles with 3-5 mappings (locations interleaved, some functions answered by several binaries, sometimes sparse pre-existing ids): 5 repetitions whose per-mapping SourceLine latency is permuted and GOMAXPROCS varied must serialize byte-identically, and ids/prof.Function order must equal the model's first-come numbering; non-trivial = at least 3 mappings need symbolization."
 	if c.Replay != "" {
 		var cs c08Case
 		if err := c.LoadReplay(&cs); err != nil {
@@ -1277,6 +1289,14 @@ func runC08(c *Ctx) {
 			c08RenderCheck(c, cs.Nodes[0])
 		case "cli", "serialize":
 			c08ReplayCLI(c, cs)
+		case "symbolize":
+			var sc c08SymCase
+			if err := c.LoadReplay(&sc); err != nil {
+				c.Res.HarnessError = err.Error()
+				return
+			}
+			sc.Reps = 12
+			c08Symbolize(c, sc)
 		default:
 			c.Res.HarnessError = "unknown case kind " + cs.Kind
 		}
@@ -1285,6 +1305,7 @@ func runC08(c *Ctx) {
 	}
 	r := NewRng(c.Seed)
 	c08Sorts(c, r.Fork(), 300*c.Scale)
+	c08SymStream(c, r.Fork(), 40*c.Scale)
 	runs := 5
 	nprof := 70
 	if c.Scale > 1 {
